@@ -31,6 +31,10 @@ func init() { registerReplay("c15", checkC15) }
 func (c c15Case) decl() string {
 	sp := func(bit int) string {
 		if c.Blanks>>uint(bit)&1 == 1 {
+			if c.Blanks>>6&1 == 1 {
+				// a line break inside the brackets, with a comment (holding digits, dots and brackets) before it
+				return []string{" // 7 [2..9] 015\n", "\n", " //]\n  "}[(c.Blanks>>4)%3]
+			}
 			return []string{" ", "\t", "  "}[(c.Blanks>>4)%3]
 		}
 		return ""
@@ -369,7 +373,7 @@ func TestC15(t *testing.T) {
 			Form:   rapid.IntRange(0, 3).Draw(t, "form"),
 			Lo:     genDigits(t),
 			Hi:     genDigits(t),
-			Blanks: rapid.IntRange(0, 63).Draw(t, "blanks"),
+			Blanks: rapid.IntRange(0, 127).Draw(t, "blanks"),
 			InList: rapid.Bool().Draw(t, "inList"),
 			AsVar:  rapid.IntRange(0, 3).Draw(t, "asVar") == 3,
 		}
